@@ -27,6 +27,19 @@ def evaluate(spec, color, alpha, viewport=None, root_path=None):
         vp = tuple(viewport) if viewport else (0, 0, W, H)
         c, s, a = cc.run_impl(psd, viewport=vp, color=color, alpha=alpha)
         ref = cc.ref_composite(spec, vp, color, alpha)
+    elif root_path[0] == "layer":
+        # the layer.composite() entry: one element with its own mask / opacity / blend mode / clipping layers
+        path = tuple(root_path[1])
+        node = cc.node_at(spec, path)
+        vp = cc.ref_bbox(node)
+        ancestors_visible = all(cc.node_at(spec, path[:d]).get("vis", True) for d in range(1, len(path)))
+        if node["k"] == "grp" and not (ancestors_visible and node.get("vis", True)):
+            vp = (0, 0, 0, 0)  # Group.extract_bbox counts is_visible() children only, and that includes the ancestors
+        if vp == (0, 0, 0, 0):
+            vp = (0, 0, W, H)
+        c, s, a = cc.run_impl(cc.find_node_layer(psd, path), color=color, alpha=alpha, as_layer=True)
+        ref = {(x, y): cc.ref_layer_entry_px(spec, path, x, y, color, alpha)
+               for y in range(vp[1], vp[3]) for x in range(vp[0], vp[2])}
     else:
         node = spec["layers"][root_path[0]]
         vp = cc.ref_bbox(node)
@@ -135,10 +148,10 @@ def run():
     inputs = []  # (stream, spec, color, alpha, viewport, root_path)
     for spec in grid_specs():
         inputs.append(("grid", spec, 1.0, 0.0, None, None))
-    for spec in nested_specs(ck.rng, 4000 if thorough else 600):
+    for spec in nested_specs(ck.rng, 8000 if thorough else 1500):
         col, al = cc.gen_backdrop(ck.rng, 3)
         inputs.append(("nested", spec, col, al, None, None))
-    for _ in range(30000 if thorough else 2500):
+    for _ in range(60000 if thorough else 7000):
         spec = cc.gen_doc(ck.rng, ALL_MODES, p_noalpha=0.04)
         col, al = cc.gen_backdrop(ck.rng, cc.NCH[spec["mode"]])
         inputs.append(("random", spec, col, al, None, None))
@@ -146,8 +159,11 @@ def run():
             tops = [i for i, n in enumerate(spec["layers"]) if n["k"] == "grp" and n.get("vis", True)]
             if tops:
                 inputs.append(("group-entry", spec, col, al, None, (ck.rng.choice(tops),)))
+        if ck.rng.random() < 0.2:
+            paths = [p for p, _ in cc.walk(spec["layers"])]
+            inputs.append(("layer-entry", spec, col, al, None, ("layer", list(ck.rng.choice(paths)))))
     model_inputs = []
-    for _ in range(6000 if thorough else 450):
+    for _ in range(12000 if thorough else 1200):
         spec = cc.gen_doc(ck.rng, MODEL_MODES, p_noalpha=0.04)
         col, al = cc.gen_backdrop(ck.rng, cc.NCH[spec["mode"]])
         W, H = spec["size"]
@@ -175,7 +191,7 @@ def run():
         if fl is not None:
             inp = {"spec": spec, "color": col, "alpha": al, "viewport": vp, "root": root}
             if root is not None:
-                inp["viewport"] = list(cc.ref_bbox(spec["layers"][root[0]]))
+                inp["viewport"] = list(cc.ref_bbox(cc.node_at(spec, root[1]) if root[0] == "layer" else spec["layers"][root[0]]))
             if fl["kind"] not in shrunk and root is None and ck.classify(dict(fl, input=inp)) is None:  # shrink the first unlisted failure of each kind
                 shrunk.add(fl["kind"])
                 kind = fl["kind"]
@@ -191,6 +207,7 @@ def run():
         elif stream == "model":
             v = tuple(vp) if vp else (0, 0) + tuple(spec["size"])
             cases.append(((spec, col, al, v, cc.scaled_outputs(c, s, a)), [0]))
+    ck.evals += len(inputs) + len(model_inputs)  # oracle evaluations (implementation vs independent reference)
     ck.sample({"document": inputs[len(inputs) // 2][1]})
     ck.sample({"model_document": model_inputs[len(model_inputs) // 3][1], "backdrop": [model_inputs[len(model_inputs) // 3][2], model_inputs[len(model_inputs) // 3][3]]})
     ck.notes.append("oracle pass over %d inputs took %.1fs" % (len(inputs) + len(model_inputs), time.time() - t0))
@@ -216,7 +233,7 @@ def replay(path):
     logging.disable(logging.WARNING)
     fl = json.load(open(path))
     inp = fl["input"]
-    root = tuple(inp["root"]) if inp.get("root") else None
+    root = inp.get("root") or None
     f2, (c, s, a), _ = safe_evaluate(inp["spec"], _col(inp["color"]), inp["alpha"], None if root else inp.get("viewport"), root)
     print("document:", json.dumps(inp["spec"]))
     print("backdrop colour/alpha:", inp["color"], inp["alpha"], "viewport:", inp.get("viewport"))
